@@ -172,7 +172,9 @@ def _run_function(c, seen):
                 c.probe("parameter_changed_after_fit")
     # regressor wrapper: trained on f(y), predicts f^-1 of what the regressor predicts
     local = PLinReg() if ch.boolean("w", 0.5, "local") else PTreeReg(max_depth=2, random_state=0)
-    tt = TransformedTargetRegressor2(regressor=local, transformer=name)
+    # the transformation given by name, or as an object the caller keeps
+    tr_obj = FunctionReciprocalTransformer(name) if ch.boolean("w", 0.4, "transformer-object") else None
+    tt = TransformedTargetRegressor2(regressor=local, transformer=name if tr_obj is None else tr_obj)
     w = numpy.round(rs.rand(n) + 0.5, 3) if ch.boolean("w", 0.5, "weights") else None
     if w is None:
         ok, r = U.sut(c, "tt.fit", tt.fit, X, y)
@@ -204,6 +206,16 @@ def _run_function(c, seen):
         pass
     if not numpy.allclose(numpy.asarray(p)[valid], want, rtol=1e-9, atol=(1e-300 if tiny else 1e-12), equal_nan=True):
         _viol(c, seen, "regressor-inverse", (name,), "predict is not the inverse of %s applied to the inner regressor's prediction: %r vs %r" % (name, numpy.asarray(p)[valid][:3].tolist(), want[:3].tolist()))
+    if tr_obj is not None:
+        # the caller goes on using the transformer object they own (another
+        # function, another fit): the fitted wrapper is not affected
+        other2 = [q for q in sorted(FUNCTIONS) if q != name][ch.draw("w", len(FUNCTIONS) - 1, "fct-owner")]
+        U.sut(c, "owner.set_params(fct)", tr_obj.set_params, fct=other2)
+        U.sut(c, "owner.fit", tr_obj.fit, X, numpy.abs(y) + 0.05)
+        ok, p2 = U.sut(c, "tt.predict(after the owner refitted the transformer)", tt.predict, Xq)
+        if not ok or not numpy.allclose(numpy.asarray(p2), numpy.asarray(p), rtol=0, atol=0, equal_nan=True):
+            _viol(c, seen, "regressor-inverse", (name, "transformer-object-shared"), "after the caller reconfigured and refitted the transformer object passed as a parameter (%r -> %r), the fitted wrapper predicts something else: %r vs %r" % (name, other2, None if not ok else numpy.asarray(p2)[:3].tolist(), numpy.asarray(p)[:3].tolist()))
+        c.probe("transformer_object_reused_by_its_owner")
 
 
 # ---------------------------------------------------------------------------
@@ -225,6 +237,18 @@ def _check_permutation(c, seen, X, y, labels, perm, learner_name, Xq, how):
         c.probe("non_identity_permutation")
     # ---- transformer level
     t = PermutationReciprocalTransformer()
+    if perm is not None and k >= 2 and c.ch.boolean("w", 0.3, "transformer-fitted-before"):
+        # the same transformer object learned another permutation before, and
+        # its reciprocal was asked for: nothing of that is left after fit
+        prev = list(perm[1:]) + list(perm[:1])
+        ent.perm_hook = lambda n, p=prev: p if n == k else None
+        ok0, _ = U.sut(c, "perm.fit(before)", t.fit, None, y)
+        if ok0:
+            ok0, inv0 = U.sut(c, "perm.get_fct_inv(before)", t.get_fct_inv)
+            if ok0:
+                U.sut(c, "perm.inv.transform(before)", inv0.transform, X, numpy.asarray(U.sut(c, "perm.transform(before)", t.transform, X, y)[1][1]))
+        ent.perm_hook = lambda n: perm if n == k else None
+        c.probe("transformer_fitted_before_with_another_permutation")
     ok, r = U.sut(c, "perm.fit", t.fit, None, y)
     if not ok:
         _viol(c, seen, "raised", ("perm.fit", type(r).__name__, how), "PermutationReciprocalTransformer.fit raised %s" % U.short_exc(r))
